@@ -299,7 +299,20 @@ class BuiltinMixin:
         return V(STR, self.UF('str_rstrip', SS(), SS())(r.t))
 
     def sm_replace(self, r, args, kw, st, exits, line):
-        return V(STR, self.UF('str_replace_all', SS(), SS(), SS(), SS())(r.t, args[0].t, args[1].t))
+        out = V(STR, self.UF('str_replace_all', SS(), SS(), SS(), SS())(r.t, args[0].t, args[1].t))
+        a, b = z3.simplify(args[0].t), z3.simplify(args[1].t)
+        if z3.is_string_value(a) and z3.is_string_value(b):
+            la, lb = len(a.as_string()), len(b.as_string())
+            from .exprs import _unescape_z3
+            sa, sb = _unescape_z3(a.as_string()), _unescape_z3(b.as_string())
+            why = 'str.replace(a, b) with literal a, b: length and first character (CPython semantics, bounded-validated)'
+            if len(sb) >= len(sa) >= 1:
+                self.fact(z3.Length(out.t) >= z3.Length(r.t), why)
+            if len(sa) == 1 and len(sb) >= 1:
+                self.fact(z3.Implies(z3.Length(r.t) > 0,
+                                     z3.SubString(out.t, 0, 1) == z3.If(z3.SubString(r.t, 0, 1) == a,
+                                                                         z3.StringVal(sb[0]), z3.SubString(r.t, 0, 1))), why)
+        return out
 
     def sm_lower(self, r, args, kw, st, exits, line):
         return V(STR, self.UF('str_lower', SS(), SS())(r.t))
